@@ -43,10 +43,9 @@ def mask_where(self, mask, replace=None, remask=True, recursive=True):
 
     # Shapeless case
     if np.isscalar(self._values_):
-        if replace is None:
-            obj = self.copy(recursive=True)
-        else:
-            obj = replace.copy(recursive=True)
+        obj = self.copy(recursive=True)
+        if replace is not None:
+            obj[...] = replace              # handles derivatives too!
 
         if remask or np.any(self._mask_):   # an already masked value stays masked
             obj = obj.remask(True, recursive=recursive)
